@@ -29,7 +29,7 @@ def rule_gate(ctx):
     c = ctx.cfg(fp)
     br = c.calls(attr="begin_reassignment")
     ok = len(br) == 1 and unparse(br[0].ast.func.value) == "self._subscription" and all(c.dominates(br[0], s) for s in ctx.suspension_nodes(fp)) and \
-        c.exit not in c.reachable([c.entry], avoid=set(br), exc=False) and not any(isinstance(a, (ast.If, ast.Try)) for a, r in br[0].within)
+        c.exit not in c.reachable([c.entry], avoid=set(br), exc=False) and not any((isinstance(a, ast.If) and not isinstance(a.test, ast.Constant)) or isinstance(a, ast.Try) for a, r in br[0].within)
     ctx.ob(R, fp, fp.node, ok, "begin_reassignment() is not unconditionally first in _on_join_prepare (records could be handed out during the revoke callback)", text="begin-first")
     fb = ctx.fn(f"{SUBS}.begin_reassignment")
     cb = ctx.cfg(fb)
